@@ -360,6 +360,15 @@ def str_method(ex, s, name, args, kw, st):
                     ex2.raise_on(s3, 'IndexError', 'split()[%d]' % i)
             return res
         return [(st, Opaque('strsplit', {'index': sp_index, 'of': s}))]
+    if name == 'join' and isinstance(args[0], LRef) and all(it[0] == 'el' and isinstance(it[1], (str, SStr))
+                                                              for it in st.lists[args[0].lid]):
+        args = [tuple(it[1] for it in st.lists[args[0].lid])] + list(args[1:])
+        if isinstance(s, str) and all(isinstance(x, str) for x in args[0]):
+            return [(st, s.join(args[0]))]
+    if name == 'join' and isinstance(args[0], Opaque) and args[0].name == 'strsplit':
+        lib('sep.join(s.split()) (uninterpreted function of (sep, s): whitespace-collapsed s)')
+        fn = z3.Function('join_split', z3.StringSort(), z3.StringSort(), z3.StringSort())
+        return [(st, SStr(fn(zs, ex.z_str(args[0].data['of']))))]
     if name == 'join' and isinstance(args[0], tuple) and all(isinstance(x, (str, SStr)) for x in args[0]):
         parts = []
         for k, x in enumerate(args[0]):
